@@ -388,19 +388,19 @@ func gotView(w *parser.Walker, explicit map[string]bool) fileView {
 }
 
 type fileObs struct {
-	Spec    int      `json:"spec"` // 1-based index into specs
-	Layout  []int    `json:"layout"`
-	Outcome string   `json:"outcome"`
-	Diag    string   `json:"diag"`
-	Got     fileView `json:"got"`
-	RulePrecOK bool  `json:"ruleprec_ok"` // explicit %prec symbols arrived at the right rules
+	Spec       int      `json:"spec"` // 1-based index into specs
+	Layout     []int    `json:"layout"`
+	Outcome    string   `json:"outcome"`
+	Diag       string   `json:"diag"`
+	Got        fileView `json:"got"`
+	RulePrecOK bool     `json:"ruleprec_ok"` // explicit %prec symbols arrived at the right rules
 }
 
 type specInfo struct {
-	ID    string   `json:"id"`
-	NGaps int      `json:"ngaps"`
-	NKinds int     `json:"nkinds"`
-	Want  fileView `json:"want"`
+	ID     string   `json:"id"`
+	NGaps  int      `json:"ngaps"`
+	NKinds int      `json:"nkinds"`
+	Want   fileView `json:"want"`
 }
 
 func cmdFileObs(args []string) {
